@@ -112,6 +112,8 @@ Lemma pres_bind {X A B} (f : world -> X) (c : M A) (k : A -> M B) :
 Proof.
   intros Hc Hk w. rewrite bind_unfold. destruct (rv (c w)); cbn; [rewrite Hk|]; apply Hc.
 Qed.
+Lemma pres_finally {X A} (f : world -> X) (c : M A) (g : M unit) : pres f c -> pres f g -> pres f (finally_ c g).
+Proof. intros Hc Hg w. unfold finally_. destruct (rv (g (rw (c w)))); cbn [rw]; rewrite Hg; apply Hc. Qed.
 Lemma pres_try {X A} (f : world -> X) (c : M A) : pres f c -> pres f (try_ c).
 Proof. intros H w. unfold try_. destruct (rv (c w)); cbn; apply H. Qed.
 
@@ -136,6 +138,10 @@ Lemma allev_bind {A B} P (c : M A) (k : A -> M B) :
 Proof.
   intros Hc Hk w. rewrite bind_unfold. destruct (rv (c w)); cbn; [apply Forall_app; split|]; auto.
   apply Hk.
+Qed.
+Lemma allev_finally {A} P (c : M A) (g : M unit) : allev P c -> allev P g -> allev P (finally_ c g).
+Proof.
+  intros Hc Hg w. unfold finally_. destruct (rv (g (rw (c w)))); cbn [re]; apply Forall_app; split; auto.
 Qed.
 Lemma allev_try {A} P (c : M A) : allev P c -> allev P (try_ c).
 Proof. intros H w. unfold try_. destruct (rv (c w)); cbn; apply H. Qed.
@@ -442,6 +448,16 @@ Section Footprints.
     pres_tac; auto.
   Qed.
 
+  Lemma logout_counted_pres m :
+    ins_all f [FNin; FJsin; FJin; FSt; FTreq; FLastt; FMaxres; FWr; FWasact] -> pres f (logout_counted c m).
+  Proof.
+    intros H. cbn in H. destruct H as [H1 [H2 [H3 [H4 [H5 [H6 [H7 [H8 [H9 _]]]]]]]]].
+    unfold logout_counted. pres_step; [pres_tac|]. pres_step; [pres_tac|].
+    pres_step; [|apply process_logout_pres; ins_auto].
+    destruct (a =? nin a0); [|pres_tac].
+    pres_step; [apply set_next_num_in_pres; ins_auto|apply persist_in_pres; ins_auto].
+  Qed.
+
   Lemma finalize_tail_pres m now r :
     ins_all f [FSt; FWasact; FMaxres; FLastt; FJsin; FJin] -> pres f (finalize_tail m now r).
   Proof.
@@ -470,7 +486,9 @@ Section Footprints.
   Proof.
     intros H. cbn in H. destruct H as [H1 [H2 [H3 [H4 [H5 [H6 [H7 [H8 [H9 [H10 [H11 [H12 _]]]]]]]]]]]].
     unfold dispatch. destruct (mkind m); try solve [pres_tac].
-    - apply process_resend_pres. ins_auto.
+    - apply pres_finally; [apply process_resend_pres; ins_auto|].
+      unfold restore_handling. pres_step; [pres_tac|]. destruct (st a =? ST_HANDLING); [|pres_tac].
+      apply state_set_pres. ins_auto.
     - apply process_testrequest_pres. ins_auto.
     - apply process_heartbeat_pres. ins_auto.
   Qed.
@@ -677,6 +695,16 @@ Section Events.
 
   Lemma set_next_num_in_allev m : allev P (set_next_num_in m).
   Proof. unfold set_next_num_in. allev_tac. Qed.
+
+  Lemma logout_counted_allev m :
+    P OnLogout -> P (State ST_DISC_WCONN) -> P (State ST_DISC_BROKEN) -> P OnDisconnect ->
+    allev P (logout_counted c m).
+  Proof.
+    intros H1 H2 H3 H4. unfold logout_counted. allev_step; [allev_tac|]. allev_step; [allev_tac|].
+    allev_step; [|apply process_logout_allev; auto].
+    destruct (a =? nin a0); [|allev_tac].
+    allev_step; [apply set_next_num_in_allev|apply persist_in_allev].
+  Qed.
 
   Lemma finalize_tail_allev m now r : P (State ST_ACTIVE) -> allev P (finalize_tail m now r).
   Proof.
